@@ -336,3 +336,207 @@ Proof.
   split; [split; [exact K | intros _; cbn [bvalue value]; unfold B; lia]|].
   split; [vm_compute; reflexivity|]. split; vm_compute; reflexivity.
 Qed.
+
+(** ------------------------------------------------------------------------------------------
+    round 3: operator FORMS around the kernels (Int/BitsForms.v) - primitive operands, *Assign forms,
+    ownership arms - and the canonical Repr.  [to_brepr w v] is the typed view of the value v. *)
+From Dashu Require Import Int.BitsForms Int.BitsFormsProofs Int.BitsFormsGenProof.
+From Dashu Require Int.StorageModel.
+From DashuGen Require Import BitsFormsGen.
+
+(** the representation is canonical: same value + invariant => the same Repr, word for word *)
+Theorem C09_brepr_canonical : forall w, 0 < w -> forall a b, brepr_ok w a -> brepr_ok w b -> bvalue w a = bvalue w b -> a = b.
+Proof. exact brepr_canonical. Qed.
+Print Assumptions C09_brepr_canonical.
+
+Theorem C09_to_brepr_canonical : forall w, 0 < w -> forall r, brepr_ok w r -> to_brepr w (bvalue w r) = r.
+Proof. exact to_brepr_canonical. Qed.
+Print Assumptions C09_to_brepr_canonical.
+
+Theorem C09_brepr_layout_canonical : forall w, 0 < w -> forall r, brepr_ok w r ->
+  brepr_layout w r = brepr_layout w (to_brepr w (bvalue w r)).
+Proof. exact brepr_layout_canonical. Qed.
+Print Assumptions C09_brepr_layout_canonical.
+
+(** & | ^ of magnitudes: every ownership arm (val/ref x val/ref) and both Assign forms build the identical Repr *)
+Theorem C09_ubig_op_canonical : forall w, 0 < w -> forall o f a b, brepr_ok w a -> brepr_ok w b ->
+  ubig_op w o f a b = to_brepr w (zop f (bvalue w a) (bvalue w b)).
+Proof. exact ubig_op_canonical. Qed.
+Print Assumptions C09_ubig_op_canonical.
+
+Theorem C09_ubig_op_ownership_irrelevant : forall w, 0 < w -> forall o o' f a b, brepr_ok w a -> brepr_ok w b ->
+  ubig_op w o f a b = ubig_op w o' f a b.
+Proof. exact ubig_op_ownership_irrelevant. Qed.
+Print Assumptions C09_ubig_op_ownership_irrelevant.
+
+Theorem C09_ubig_assign_canonical : forall w, 0 < w -> forall f rhs_ref a b, brepr_ok w a -> brepr_ok w b ->
+  ubig_assign_asis w f rhs_ref a b = to_brepr w (zop f (bvalue w a) (bvalue w b)).
+Proof. exact ubig_assign_canonical. Qed.
+Print Assumptions C09_ubig_assign_canonical.
+
+Theorem C09_repr_and_not_canonical : forall w, 0 < w -> forall a b, brepr_ok w a -> brepr_ok w b ->
+  repr_and_not w a b = to_brepr w (Z.ldiff (bvalue w a) (bvalue w b)).
+Proof. exact repr_and_not_canonical. Qed.
+Print Assumptions C09_repr_and_not_canonical.
+
+Theorem C09_ibig_assign_correct : forall w, 0 < w -> forall f rhs_ref s0 r0 s1 r1, mag_ok w s0 r0 -> mag_ok w s1 r1 ->
+  ibig_assign_asis w f rhs_ref s0 r0 s1 r1 = zop f (signed s0 (bvalue w r0)) (signed s1 (bvalue w r1)).
+Proof. exact ibig_assign_correct. Qed.
+Print Assumptions C09_ibig_assign_correct.
+
+(** shifts: x << n, &x << n, x << &n, x <<= n (in place or copied), x >> n ... : one Repr *)
+Theorem C09_ubig_shl_form_canonical : forall w, 0 < w -> forall by_ref cap r n, 0 <= n -> brepr_ok w r ->
+  ubig_shl_form w by_ref cap r n = to_brepr w (Z.shiftl (bvalue w r) n).
+Proof. exact ubig_shl_form_canonical. Qed.
+Print Assumptions C09_ubig_shl_form_canonical.
+
+Theorem C09_ubig_shr_form_canonical : forall w, 0 < w -> forall by_ref r n, 0 <= n -> brepr_ok w r ->
+  ubig_shr_form w by_ref r n = to_brepr w (Z.shiftr (bvalue w r) n).
+Proof. exact ubig_shr_form_canonical. Qed.
+Print Assumptions C09_ubig_shr_form_canonical.
+
+Theorem C09_ubig_shift_assign_canonical : forall w, 0 < w -> forall cap r n, 0 <= n -> brepr_ok w r ->
+  ubig_shl_assign_asis w cap r n = to_brepr w (Z.shiftl (bvalue w r) n) /\
+  ubig_shr_assign_asis w r n = to_brepr w (Z.shiftr (bvalue w r) n).
+Proof. exact ubig_shift_assign_canonical. Qed.
+Print Assumptions C09_ubig_shift_assign_canonical.
+
+Theorem C09_ibig_shift_forms_correct : forall w, 0 < w -> forall by_ref cap s r n, 0 <= n -> brepr_ok w r ->
+  ibig_shl_form w by_ref cap s r n = Z.shiftl (signed s (bvalue w r)) n /\
+  ibig_shr_form w by_ref s r n = Z.shiftr (signed s (bvalue w r)) n.
+Proof. exact ibig_shift_forms_correct. Qed.
+Print Assumptions C09_ibig_shift_forms_correct.
+
+Theorem C09_repr_set_clear_bit_canonical : forall w, 0 < w -> forall r n, 0 <= n -> brepr_ok w r ->
+  repr_set_bit w r n = to_brepr w (set_bit_spec (bvalue w r) n) /\
+  repr_clear_bit w r n = to_brepr w (clear_bit_spec (bvalue w r) n) /\
+  repr_clear_high_bits w r n = to_brepr w (clear_high_bits_spec (bvalue w r) n).
+Proof. exact repr_set_clear_bit_canonical. Qed.
+Print Assumptions C09_repr_set_clear_bit_canonical.
+
+Theorem C09_repr_ones_npt_canonical : forall w, 0 < w ->
+  (forall n, 0 <= n -> repr_ones w n = to_brepr w (ones_spec n)) /\
+  (forall r, brepr_ok w r -> repr_next_power_of_two w r = to_brepr w (next_power_of_two_spec (bvalue w r))).
+Proof. exact repr_ones_npt_canonical. Qed.
+Print Assumptions C09_repr_ones_npt_canonical.
+
+(** primitive operands: big OP prim, &big OP prim, prim OP big, prim OP &big (and &prim), any primitive width *)
+Theorem C09_ubig_prim_asis : forall w, 0 < w -> forall pf f ret_prim t x p, brepr_ok w x -> pty_in t p = true -> 0 <= p ->
+  ret_prim_ok f ret_prim t -> ubig_prim_asis w pf f ret_prim t x p = Ok (zop f (bvalue w x) p).
+Proof. exact ubig_prim_asis_correct. Qed.
+Print Assumptions C09_ubig_prim_asis.
+
+Theorem C09_ibig_prim_asis : forall w, 0 < w -> forall pf f ret_prim t s x p, mag_ok w s x -> pty_in t p = true ->
+  ret_prim_ok f ret_prim t -> ibig_prim_asis w pf f ret_prim t s x p = Ok (zop f (signed s (bvalue w x)) p).
+Proof. exact ibig_prim_asis_correct. Qed.
+Print Assumptions C09_ibig_prim_asis.
+
+Theorem C09_prim_assign : forall w, 0 < w -> forall f,
+  (forall x p, brepr_ok w x -> 0 <= p -> ubig_prim_assign_asis w f x p = to_brepr w (zop f (bvalue w x) p)) /\
+  (forall s x p, mag_ok w s x -> ibig_prim_assign_asis w f s x p = zop f (signed s (bvalue w x)) p).
+Proof. exact prim_assign_correct. Qed.
+Print Assumptions C09_prim_assign.
+
+(** the table of Big x primitive instances regenerated from bits.rs: `-> $t` only for `&` with an unsigned
+    primitive, so every instance in every form returns Z op and never panics *)
+Theorem C09_gen_prim_table_ok : forall usz, forallb prim_row_ok (gen_prim_table usz) = true.
+Proof. exact gen_prim_table_ok. Qed.
+Print Assumptions C09_gen_prim_table_ok.
+
+Theorem C09_prim_forms_table_correct : forall w usz, 0 < w -> 0 <= usz -> forall ib t f rp, In (ib, t, f, rp) (gen_prim_table usz) ->
+  forall pf s x p, mag_ok w s x -> (ib = false -> s = Positive) -> pty_in t p = true ->
+    (if ib then ibig_prim_asis w pf f rp t s x p else ubig_prim_asis w pf f rp t x p) = Ok (zop f (signed s (bvalue w x)) p).
+Proof. exact prim_forms_table_correct. Qed.
+Print Assumptions C09_prim_forms_table_correct.
+
+(** the Small/Large dispatch regenerated from bits.rs (16 impls) computes the two's-complement operation as a
+    canonical Repr, for all four ownership combinations *)
+Theorem C09_gen_dispatch_correct : forall w, 0 < w -> forall o a b, brepr_ok w a -> brepr_ok w b ->
+  (match o with VV => gen_bitand_vv | VR => gen_bitand_vr | RV => gen_bitand_rv | RR => gen_bitand_rr end) w a b
+    = to_brepr w (Z.land (bvalue w a) (bvalue w b)) /\
+  (match o with VV => gen_bitor_vv | VR => gen_bitor_vr | RV => gen_bitor_rv | RR => gen_bitor_rr end) w a b
+    = to_brepr w (Z.lor (bvalue w a) (bvalue w b)) /\
+  (match o with VV => gen_bitxor_vv | VR => gen_bitxor_vr | RV => gen_bitxor_rv | RR => gen_bitxor_rr end) w a b
+    = to_brepr w (Z.lxor (bvalue w a) (bvalue w b)) /\
+  (match o with VV => gen_and_not_vv | VR => gen_and_not_vr | RV => gen_and_not_rv | RR => gen_and_not_rr end) w a b
+    = to_brepr w (Z.ldiff (bvalue w a) (bvalue w b)).
+Proof. exact gen_dispatch_correct. Qed.
+Print Assumptions C09_gen_dispatch_correct.
+
+Theorem C09_gen_dispatch_is_model : forall w, 0 < w -> forall o a b, brepr_ok w a -> brepr_ok w b ->
+  (match o with VV => gen_bitand_vv | VR => gen_bitand_vr | RV => gen_bitand_rv | RR => gen_bitand_rr end) w a b = repr_bitand w o a b /\
+  (match o with VV => gen_bitor_vv | VR => gen_bitor_vr | RV => gen_bitor_rv | RR => gen_bitor_rr end) w a b = repr_bitor w o a b /\
+  (match o with VV => gen_bitxor_vv | VR => gen_bitxor_vr | RV => gen_bitxor_rv | RR => gen_bitxor_rr end) w a b = repr_bitxor w o a b /\
+  (match o with VV => gen_and_not_vv | VR => gen_and_not_vr | RV => gen_and_not_rv | RR => gen_and_not_rr end) w a b = repr_and_not w a b.
+Proof. exact gen_dispatch_is_model. Qed.
+Print Assumptions C09_gen_dispatch_is_model.
+
+(** operand handling of the form macros of helper_macros.rs / impl_shifts, regenerated *)
+Theorem C09_gen_form_arms_ok :
+  Forall (fun r => own_of_pform (fst r) = snd r) (gen_binop_prim_arms ++ gen_commutative_prim_arms) /\
+  (forall pf, In pf (map fst (gen_binop_prim_arms ++ gen_commutative_prim_arms))) /\
+  Forall (fun o => o = VV) gen_assign_prim_arms /\
+  Forall (fun r => assign_own (fst r) = snd r) gen_assign_by_taking_arms /\
+  map fst gen_assign_by_taking_arms = [false; true].
+Proof. exact gen_form_arms_ok. Qed.
+Print Assumptions C09_gen_form_arms_ok.
+
+Theorem C09_gen_shift_arms_ok :
+  Forall (fun r => let '(is_shl, is_assign, cref, by_ref) := r in is_assign = true -> by_ref = false) gen_shift_arms /\
+  (forall is_shl by_ref, In (is_shl, false, true, by_ref) gen_shift_arms) /\
+  (forall is_shl cref, In (is_shl, true, cref, false) gen_shift_arms) /\
+  length gen_shift_arms = 8%nat.
+Proof. exact gen_shift_arms_ok. Qed.
+Print Assumptions C09_gen_shift_arms_ok.
+
+(** capacities: the buffers the allocating kernels hand to from_buffer, and the regenerated requests *)
+Theorem C09_kernel_buffers_are_model : forall w,
+  (forall ws rhs, BitsKernels.shl_large_ref w ws rhs = BitsKernels.from_buffer w (shl_large_ref_buf w ws rhs)) /\
+  (forall dw rhs, shl_dword_spilled w dw rhs = BitsKernels.from_buffer w (shl_dword_spilled_buf w dw rhs)) /\
+  (forall rhs, shl_one_spilled w rhs = BitsKernels.from_buffer w (shl_one_spilled_buf w rhs)) /\
+  (forall d n, with_bit_dword_spilled w d n = BitsKernels.from_buffer w (with_bit_dword_spilled_buf w d n)) /\
+  (forall buf n, len buf <= n / w -> with_bit_large w buf n = BitsKernels.from_buffer w (with_bit_large_grown_buf w buf n)).
+Proof. exact kernel_buffers_are_model. Qed.
+Print Assumptions C09_kernel_buffers_are_model.
+
+Theorem C09_bit_kernel_requests_suffice : forall w, 0 < w -> forall M, 8 <= M ->
+  (forall ws rhs, 0 <= rhs -> fits M (len (shl_large_ref_buf w ws rhs)) (bkreq_shl_large_ref_request (rhs / w) (len ws))) /\
+  (forall dw rhs, 0 <= rhs -> fits M (len (shl_dword_spilled_buf w dw rhs)) (bkreq_shl_dword_spilled_request (rhs / w))) /\
+  (forall rhs, 0 <= rhs -> fits M (len (shl_one_spilled_buf w rhs)) (bkreq_shl_one_spilled_request (rhs / w)) /\
+                           bkreq_shl_one_spilled_zeros (rhs / w) = rhs / w) /\
+  (forall d n, 2 * w <= n -> fits M (len (with_bit_dword_spilled_buf w d n)) (bkreq_with_bit_dword_spilled_request (n / w)) /\
+      0 <= bkreq_with_bit_dword_spilled_zeros (n / w) /\ bkreq_with_bit_dword_spilled_zeros (n / w) = n / w - 2) /\
+  (forall buf n, len buf <= n / w -> len (with_bit_large_grown_buf w buf n) <= bkreq_with_bit_large_reserve (n / w) /\
+      0 <= bkreq_with_bit_large_zeros (n / w) (len buf) /\ bkreq_with_bit_large_zeros (n / w) (len buf) = n / w - len buf).
+Proof. exact bit_kernel_requests_suffice. Qed.
+Print Assumptions C09_bit_kernel_requests_suffice.
+
+(** [fits M pushed request] = pushed <= request, hence within default_capacity (C17's Buffer::allocate) *)
+Theorem C09_fits_meaning : forall M pushed request, fits M pushed request ->
+  pushed <= request /\ (0 <= request <= M -> pushed <= StorageModel.default_capacity M request).
+Proof. intros M pushed request H. exact H. Qed.
+Print Assumptions C09_fits_meaning.
+
+Theorem C09_shl_large_in_place_test : forall cap ln sw, 0 <= ln -> 0 <= sw ->
+  bkreq_shl_large_needs ln sw <= cap -> ln < cap /\ sw <= cap - (ln + 1).
+Proof. exact shl_large_in_place_test. Qed.
+Print Assumptions C09_shl_large_in_place_test.
+
+Theorem C09_bitor_tail_fits : forall ln rhs_len cap, ln < rhs_len -> bkreq_bitor_large_reserve rhs_len <= cap ->
+  bkreq_bitxor_large_reserve rhs_len <= cap -> rhs_len - ln <= cap - ln.
+Proof. exact bitor_tail_fits. Qed.
+Print Assumptions C09_bitor_tail_fits.
+
+(** non-vacuity of the hypotheses of the round-3 theorems *)
+Example C09_forms_nonvacuous :
+  ret_prim_ok OpAnd true (PUnsigned 8) /\ pty_in (PUnsigned 8) 255 = true /\ pty_in (PSigned 16) (-32768) = true /\
+  In (true, PUnsigned 8, OpAnd, true) (gen_prim_table 64) /\
+  ibig_prim_asis 64 (PF_prim_big true) OpAnd true (PUnsigned 8) Negative (BSmall 1) 255 = Ok 255 /\
+  ubig_op 64 RV OpXor (BLarge [5; 0; 1]) (BLarge [5; 0; 1; 7]) = BLarge [0; 0; 0; 7] /\
+  ubig_shl_form 64 true false (BSmall 1) 128 = BLarge [0; 0; 1] /\
+  fits 1000 (len (shl_large_ref_buf 64 [5; 0; 1] 130)) (bkreq_shl_large_ref_request 2 3).
+Proof.
+  split; [intros _; split; [reflexivity | exists 8; split; [lia | reflexivity]]|].
+  split; [reflexivity|]. split; [reflexivity|]. split; [cbn; tauto|]. split; [vm_compute; reflexivity|].
+  split; [vm_compute; reflexivity|]. split; [vm_compute; reflexivity|]. apply fits_intro; [lia | vm_compute; discriminate].
+Qed.
